@@ -130,12 +130,23 @@ CHECKS.update({
                 technique="deterministic simulation: seeded scenario/schedule exploration with virtual-time oracles"),
 })
 
+CHECKS.update({
+    "C19": dict(level="exploration",
+                text="Seeded multi-instance runs (1-3 engines, both transports, classic/quorum queues) with an affinity "
+                     "monitor on every publish and delivery of the simulated broker's operation log, an exclusive-consumer "
+                     "probe (twin instance), and the address/message/acknowledge mapping of the real Producer/Consumer/"
+                     "Message classes of both messaging modules against an independent reading of the address grammar.",
+                ref="5/C19", note=NOTE_BASE + "; 'the wire' is the pika API boundary; instances share no store (preloaded "
+                                             "store files).",
+                technique="deterministic simulation: multi-node runs with a broker-log monitor; differential transport check"),
+})
+
 NA = [
     ("C12", "pure functions of (document, path, result): no schedule, clock, fault or interleaving to simulate"),
     ("C13", "pure function of (template, input, context): no schedule, clock, fault or interleaving to simulate"),
     ("C14", "pure function of (rule tree, input): no schedule, clock, fault or interleaving to simulate"),
 ]
-NOT_YET = {'C11': 'check not built yet (in progress)', 'C19': 'check not built yet (in progress)', 'C20': 'check not built yet (in progress)'}
+NOT_YET = {'C11': 'check not built yet (in progress)', 'C20': 'check not built yet (in progress)'}
 
 FIX_COMMITS = []
 
